@@ -497,8 +497,8 @@ def _simplify(t):
         # aggregate field projection
         if base[0] == "agg" and isinstance(t[3], int) and t[3] < len(base[4]):
             return base[4][t[3]]
-        # payloads of Ok/Some/Continue/Err/Break
-        if base[0] == "variant" and t[3] == 0:
+        # payloads of Ok/Some/Continue/Err/Break (tuple variants only: the field is named "0")
+        if base[0] == "variant" and t[3] == 0 and str(t[2]) == "0":
             inner = base[1]
             v = base[2]
             if inner[0] == "call" and inner[1].endswith("::branch") and "Try" in inner[1]:
@@ -754,6 +754,90 @@ class Program:
                 if c not in seen and not stop(p, c):
                     stack.append(c)
         return seen
+
+    # ---- which fields of a `&mut` parameter may a local function write? -------------------------
+    def writes_fields(self, fn_path, param, _stack=()):
+        """Set of first-level field names of parameter `param` (a reference) that `fn_path` may
+        write, directly or through callees; None = unknown (treat as everything)."""
+        key = (fn_path, param)
+        if not hasattr(self, "_wf"):
+            self._wf = {}
+        if key in self._wf:
+            return self._wf[key]
+        if key in _stack:
+            return set()
+        b = self.bodies.get(fn_path)
+        if b is None:
+            return None
+        out = set()
+        unknown = False
+        # locals that hold (re)borrows of param or of its fields: local -> (field or None for whole)
+        alias = {param: None}
+        changed = True
+        n = 0
+        while changed and n < 20:
+            changed = False
+            n += 1
+            for bb, i, s in b.stmts(cleanup=False):
+                if s["k"] != "assign" or s["lhs"]["p"]:
+                    continue
+                rv = s["rv"]
+                src = None
+                if rv["k"] in ("ref", "rawptr"):
+                    src = rv["place"]
+                elif rv["k"] == "use":
+                    src = op_place(rv["op"])
+                elif rv["k"] == "cast":
+                    src = op_place(rv["op"])
+                if src is None or src["l"] not in alias:
+                    continue
+                fl = place_fields(src)
+                base_f = alias[src["l"]]
+                f = base_f if base_f is not None else (str(fl[0]) if fl else None)
+                if rv["k"] == "use" and fl and base_f is None:
+                    # a copy of a value stored in a field (e.g. a reference held by the struct): not an alias of the struct itself
+                    continue
+                if s["lhs"]["l"] not in alias:
+                    alias[s["lhs"]["l"]] = f
+                    changed = True
+        for bb, i, s in b.stmts(cleanup=False):
+            if s["k"] in ("assign", "setdiscr"):
+                lhs = s["lhs"] if s["k"] == "assign" else s["place"]
+                if lhs["p"] and lhs["l"] in alias:
+                    base_f = alias[lhs["l"]]
+                    fl = place_fields(lhs)
+                    if base_f is not None:
+                        out.add(base_f)
+                    elif fl:
+                        out.add(str(fl[0]))
+                    else:
+                        unknown = True
+        for bb, t in b.calls(cleanup=False):
+            f = t["func"]
+            for ai, a in enumerate(t["args"]):
+                pl = op_place(a)
+                if pl is None or pl["l"] not in alias:
+                    continue
+                aty = (t.get("arg_tys") or [""] * (ai + 1))[ai]
+                if not aty.startswith("&mut") and "&mut" not in aty.split("<")[0] and not aty.startswith("*mut"):
+                    if aty.startswith("&"):
+                        continue  # shared borrow
+                base_f = alias[pl["l"]]
+                if base_f is not None:
+                    out.add(base_f)
+                    continue
+                callee = cname(f) if "indirect" not in f else None
+                if callee in self.bodies and not (f.get("trait") and not f.get("rpath")):
+                    sub = self.writes_fields(callee, ai + 1, _stack + (key,))
+                    if sub is None:
+                        unknown = True
+                    else:
+                        out |= sub
+                else:
+                    unknown = True
+        res = None if unknown else out
+        self._wf[key] = res
+        return res
 
     def callers_of(self, pat):
         rx = re.compile(pat)
